@@ -435,3 +435,64 @@ def run_scope(ctx, res, thorough):
             for k in list(sys.modules):
                 if k.split(".")[0] == pkg:
                     del sys.modules[k]
+
+
+LOOPS = [
+    # (what, source of f0 and helpers, must evaluate: True = the values of plain execution are required, False = a refusal is fine)
+    ("a keep in a comprehension, one argument per iteration",
+     "def g(i):\n    log('g')\n    return term('g', i)\n\ndef f0():\n    return term('f0', [dds.keep('/l/x', g, i) for i in range(3)])\n", False),
+    ("a keep in a for loop, one argument per iteration",
+     "def g(i):\n    log('g')\n    return term('g', i)\n\ndef f0():\n    out = []\n    for i in (1, 2):\n        out.append(dds.keep('/l/y', g, i))\n    return term('f0', out)\n", False),
+    ("a data function called in a loop with an argument per iteration",
+     "@dds.data_function('/l/w')\ndef g(i):\n    log('g')\n    return term('g', i)\n\ndef f0():\n    return term('f0', [g(i) for i in (4, 5)])\n", False),
+    ("a helper that keeps, called in a loop with another keyword argument each time",
+     "def g(i, k=0):\n    log('g')\n    return term('g', i, k)\n\ndef h(k):\n    return dds.keep('/l/h', g, 1, k=k)\n\ndef f0():\n    return term('f0', [h(k) for k in (7, 8)])\n", False),
+    ("a keep in a loop, the same argument at every iteration",
+     "def g(i):\n    log('g')\n    return term('g', i)\n\ndef f0():\n    return term('f0', [dds.keep('/l/s', g, 5) for _ in range(3)])\n", True),
+    ("a keep in a loop, the same run-time argument at every iteration, spelled in two ways",
+     "def g(i, k=0):\n    log('g')\n    return term('g', i, k)\n\ndef f0():\n    v = len('ab')\n    out = []\n    for j in range(2):\n        out.append(dds.keep('/l/t', g, v, k=v))\n    return term('f0', out)\n", True),
+]
+
+
+def run_loops(ctx, res, thorough):
+    """a kept call whose arguments are computed at run time gets its key from the place of the call: executed several times in one
+    evaluation (a loop) with other arguments it would be served the first result. Every such evaluation either returns the values
+    of plain execution or is refused with a DDS error - never other values."""
+    real = pipeline.real_runner()
+    ref = pipeline.ref_worker()
+    for li, (what, fsrc, must) in enumerate(LOOPS):
+        base = tempfile.mkdtemp(prefix="ddsverif_c01l_")
+        pkg = "c1l_%d_%d" % (os.getpid(), li)
+        try:
+            real.reset_process_state()
+            real.set_store(["memory", "local", "local_lru"][li % 3], os.path.join(base, "si"), os.path.join(base, "sd"))
+            ref.call(cmd="refpaths", paths={})
+            src = "import dds\nfrom ddsverif_rt import log, term\n\n" + fsrc
+            os.makedirs(os.path.join(base, pkg), exist_ok=True)
+            open(os.path.join(base, pkg, "__init__.py"), "w").close()
+            with open(os.path.join(base, pkg, "main.py"), "w") as fh:
+                fh.write(src)
+            real.load_world(base, pkg + ".main", None, accept=pkg)
+            ref.call(cmd="world", dir=base, module=pkg + ".main", extmod=None)
+            for attempt in (1, 2):
+                entry = {"kind": "eval", "fun": "f0"}
+                rr = ref.call(cmd="run", entry=entry)
+                r = real.run(entry)
+                res.evaluations += 1
+                res.count("loop_steps")
+                res.nontrivial("loops %d %d" % (li, attempt))
+                if rr.get("error") is not None:
+                    raise common.Infra("loop case %d does not run: %s" % (li, rr["error"]))
+                refused = r["error"] is not None and r["error"].get("kind") == "dds"
+                if refused and not must:
+                    res.count("loop_steps_refused")
+                    continue
+                if r["error"] is not None or r["value"] != rr["value"]:
+                    res.violations.append({"what": "%s: dds returns %r (error %s), plain execution %r" % (what, r["value"], r["error"], rr["value"]),
+                                           "input": {"source": src, "evaluation": attempt}, "kf": None})
+                    break
+        finally:
+            shutil.rmtree(base, ignore_errors=True)
+            for k in list(sys.modules):
+                if k.split(".")[0] == pkg:
+                    del sys.modules[k]
